@@ -223,46 +223,46 @@ CHECKS = {
 # what the mutation and bug-hunting campaigns added to each check after the texts above were written
 ADDED = {
     'C01': ' Also: merge keys and both spellings of a key among the mutations, scalar short forms, underscore-prefixed '
-           'parameters, user classes named Path.',
+           'parameters, user classes named Path. A savorize that uses one node for two attributes of different types (hook-sharing family, ten type pairs), parameters annotated with the literal None.',
     'C02': ' Also: merge keys, both spellings of a key, collections with an ambiguous and an unrecognisable item in either '
            'order, scalar short forms, extras declared mid-signature, mix-in enums; the reference models PyYAML\'s merge '
-           'flattening below Any.',
+           'flattening below Any. Keys with some underscores dashed, extras named self / _yatiml_extra, the hook-sharing family.',
     'C03': ' Also: a slice of the four-class shapes in the quick tier, three five-class diamond shapes under all 120 orders, '
-           'explicit class tags on enum / string-like scalars.',
-    'C04': ' Also: underscore-prefixed parameters.',
+           'explicit class tags on enum / string-like scalars. Core tags that contradict the node (!!int on a class mapping), Unions of a class with Dict / Any, classes written as scalars by the parsed-class recipe in a Union.',
+    'C04': ' Also: underscore-prefixed parameters. Every injected tree is loaded in three spellings (as emitted, all scalars double-quoted, tagged scalars plain) against a style-aware oracle.',
     'C05': ' Also: a grammar of number-like spellings with every leading digit, inverse pairs with non-str keys, paths with '
            '~ and .., empty collections vs None defaults, defaulted extras declared first, shared objects with node-replacing '
-           'and restructuring sweeteners, one datetime with a sub-minute UTC offset (open known finding).',
+           'and restructuring sweeteners, one datetime with a sub-minute UTC offset (open known finding). Collections shared with an unsweetened attribute, the savorize-direction helpers used as sweeteners with one item under two keys, extras named self / _yatiml_extra, ints beyond the 4300-digit limit.',
     'C06': ' Also: extras declared mid-signature, mix-in enums, inherited _yatiml_attributes, objects ending in a leaf that '
            'recurs, non-idempotent inherited sweeteners, sweeteners writing every scalar kind (floats incl. inf/nan) through '
-           'the Node helpers, shared objects with node-replacing and restructuring sweeteners.',
+           'the Node helpers, shared objects with node-replacing and restructuring sweeteners. The same shared-collection and reverse-direction families, sweeteners writing int nodes in hex / octal / binary spelling.',
     'C07': ' Also: the string families through dump_json to a stream, per-occurrence check of the ensure_ascii=False clause, '
-           'keys around PyYAML\'s 1024-character implicit-key limit (open known finding).',
+           'keys around PyYAML\'s 1024-character implicit-key limit (open known finding). Immutable leaves occurring twice (tree-shapedness decided per value), the reload clause for all printable characters incl. beyond the BMP, ints beyond the digit limit (open known finding), int spellings written by sweeteners.',
     'C08': ' Also: 30 models whose hooks read attribute values (require_attribute_value, get_value, has_attribute_type, '
            'remove_attributes_with_default_values) or restructure them behind a permissive recogniser, each on every nasty '
            'scalar and shape; helpers without a documented mapping precondition on scalar and sequence nodes; parsed-class '
            'hooks; long number spellings (base-60 overflow, beyond the 4300-digit limit); a lexical unit with every '
-           'boundary escape sequence and %YAML/%TAG directive that no rendered document contains.',
+           'boundary escape sequence and %YAML/%TAG directive that no rendered document contains. Eleven annotations outside the type language (PEP 604, forward references, strings, built-in generics ...) on three roots.',
     'C09': ' Also: character categories (\\d \\s \\w) are translated exactly, so non-ASCII digits are covered; a sign on '
            '.nan is not accepted.',
     'C10': ' Also: same-named unregistered mix-ins, the deprecated Dumper route with classes registered in two steps, the '
-           'sweeten rule for string-like classes and enums on dumping.',
+           'sweeten rule for string-like classes and enums on dumping. Diamond inheritance over registered classes (two shapes; sibling order free).',
     'C11': ' Also: eight load functions (several over one class set with different result types), a mid-dump JSON failure, '
            'class sets with node-replacing and default-value sweeteners, distinct objects per thread in the dump programs, '
            'deep snapshot of the user\'s classes.',
     'C12': ' Also: UTF-16 / UTF-8-BOM binary sources, byte-level documents (invalid UTF-8, CR/CRLF with errors) through '
            'BytesIO, binary file and Path, every fixed string through every dump variant and sink, pre-filled target files, '
-           'a sub-process under a non-UTF-8 locale.',
+           'a sub-process under a non-UTF-8 locale. A text stream over undecodable bytes at three positions (position independence of the error).',
     'C13': ' Also: single-class models, both spellings of a key, merge keys; dicts are compared unordered under key '
            'permutation.',
     'C14': ' Also: initial nodes composed from text (marks, a value shared by two keys, kind/tag mismatches), overrides of '
            'non-None defaults incl. by None, a defaulted _yatiml_extra before the defaulted parameters, empty collections '
            'against defaults of the same and the other kind, ints beyond the str() digit limit through set_value and '
-           'set_attribute.',
-    'C15': ' Also: the full form (item already has its key attribute) is inside the domain of map_attribute_to_index.',
-    'C16': ' Also: near-miss keys (dashed / underscored / case), nodes whose kind and core tag disagree.',
+           'set_attribute. Collections carrying a scalar tag in the default-value matrix.',
+    'C15': ' Also: the full form (item already has its key attribute) is inside the domain of map_attribute_to_index. Every in-domain transform also on node graphs with shared objects (the collection, its first item, one item under two keys).',
+    'C16': ' Also: near-miss keys (dashed / underscored / case), nodes whose kind and core tag disagree. Non-string keys spelt like the attribute names; mappings with the attribute written twice (exception type and purity only).',
     'C17': ' Also: near-miss enum members, numeric and duplicated added keys, Union-with-collection and Union-of-classes '
-           'positions, classes with eight and more parameters, four-class hierarchies in the quick tier.',
+           'positions, classes with eight and more parameters, four-class hierarchies in the quick tier. Positions named "generated node" count as outside the document; parsed-class hooks built with make_mapping / set_attribute; an alias unit (the wrong node is an alias of a node that is valid where anchored).',
     'C18': ' Also: nested sharing, every aliased and cyclic document additionally read as a one-document stream (Loader.'
            'get_node), cyclic documents with 4-60 shared levels under a time limit.',
 }
